@@ -380,8 +380,8 @@ where
 					self.doctest_mode,
 				);
 				match res {
-					Ok(s) => return Ok(s.unwrap()),
-					Err(_) => return Ok(ret_slate),
+					Ok(Some(s)) => return Ok(s),
+					_ => return Ok(ret_slate),
 				}
 			}
 			None => Ok(ret_slate),
